@@ -219,12 +219,12 @@ func TestVerifSched(t *testing.T) {
 		max   int
 	}
 	scopes := []scope{
-		{vSchedCfg{size: 1, batch: 4096, senders: [][]int{{1}}}, 3, vgen.Scale(3000, 40000)},
-		{vSchedCfg{size: 1, batch: 4096, senders: [][]int{{1}, {2}}}, 2, vgen.Scale(6000, 150000)},
-		{vSchedCfg{size: 2, batch: 1, senders: [][]int{{1, 2}}}, 2, vgen.Scale(4000, 80000)},
-		{vSchedCfg{size: 1, batch: 1, senders: [][]int{{1}, {2}}}, 2, vgen.Scale(4000, 100000)},
-		{vSchedCfg{size: 1, batch: 4096, senders: [][]int{{1}}, stops: 1}, 2, vgen.Scale(2000, 30000)},
-		{vSchedCfg{size: 2, batch: 2, senders: [][]int{{1, 2}, {3}}}, 1, vgen.Scale(3000, 100000)},
+		{vSchedCfg{size: 1, batch: 4096, senders: [][]int{{1}}}, vgen.Scale(3, 6), vgen.Scale(3000, 40000)},
+		{vSchedCfg{size: 1, batch: 4096, senders: [][]int{{1}, {2}}}, vgen.Scale(2, 3), vgen.Scale(6000, 60000)},
+		{vSchedCfg{size: 2, batch: 1, senders: [][]int{{1, 2}}}, vgen.Scale(2, 4), vgen.Scale(4000, 40000)},
+		{vSchedCfg{size: 1, batch: 1, senders: [][]int{{1}, {2}}}, vgen.Scale(2, 3), vgen.Scale(4000, 60000)},
+		{vSchedCfg{size: 1, batch: 4096, senders: [][]int{{1}}, stops: 1}, vgen.Scale(2, 4), vgen.Scale(2000, 30000)},
+		{vSchedCfg{size: 2, batch: 2, senders: [][]int{{1, 2}, {3}}}, vgen.Scale(1, 2), vgen.Scale(3000, 60000)},
 	}
 	total := 0
 	for si, sc := range scopes {
@@ -268,7 +268,7 @@ func TestVerifSched(t *testing.T) {
 
 	// (2) seeded random schedules over wider configurations
 	r := vgen.NewRng(vgen.Seed())
-	nr := vgen.Scale(6000, 150000)
+	nr := vgen.Scale(6000, 100000)
 	for i := 0; i < nr; i++ {
 		rr := r.Fork()
 		cfg := vSchedCfg{size: vgen.Pick(rr, []int{1, 1, 2, 3, 4, 8}), batch: vgen.Pick(rr, []int{1, 2, 3, 4096, 4096}), stops: 0}
